@@ -39,6 +39,19 @@ func GenPlan(family string, seed uint64) *Plan {
 	}
 	bareConfig(p, seed)
 	sameIDConfig(p, seed)
+	if r := NewRng(seed, "inlock/"+family); !p.Sched.Free && len(p.Insts) > 0 && p.Sched.InLock == 0 && p.Sched.YieldProb > 0 {
+		switch family {
+		case "faultfree", "mixed", "c08", "c05ack", "c07rounds", "c13", "ctxcancel", "stoprestart":
+			if r.Bool(1.0 / 8) {
+				// goroutines parked inside critical sections and in front of atomic operations (pure
+				// reorderings); the leadership flag is polled (see c11lock)
+				p.Sched.InLock = Pick(r, []float64{0.1, 0.3})
+				for i := range p.Insts {
+					p.Insts[i].NoMetrics = true
+				}
+			}
+		}
+	}
 	if r := NewRng(seed, "dialect/"+family); p.Store.Dialect == "" && !p.Sched.Free && len(p.Insts) > 0 && r.Bool(0.1) {
 		// a store that words its refusals like internal/natsmock ("revision mismatch", "key not
 		// found"): the library's other classification branch (family c03 has its own share)
